@@ -780,6 +780,50 @@ def _draw_axes(case, spec, cls):
         spec['positions'] = pts.tolist() if spec['npos'] else pts[0].tolist()
         spec['special'] = f'sub-pixel shape on pixel {where}'
         case.note('axis:degenerate:subpixel_shape_on_pixel_' + where)
+    # (ix) exact half-integer / parity: centres exactly at k or k + 0.5 (even and odd k), and - for unrotated shapes -
+    # sizes such that the shape's edges fall exactly on pixel boundaries (box arithmetic exact -> zero tie band)
+    if not special and rng.random() < 0.08:
+        plain = False
+        pts = np.atleast_2d(np.array(spec['positions'], dtype=float))
+        half = bool(rng.random() < 0.5)
+        for row in pts:
+            for j in (0, 1):
+                k_ = int(rng.integers(-4, 40))
+                row[j] = k_ + (0.5 if half else 0.0)
+                case.note('axis2_ix:centre_%s_%s' % ('half' if half else 'integer', 'even' if k_ % 2 == 0 else 'odd'))
+        spec['positions'] = pts.tolist() if spec['npos'] else pts[0].tolist()
+        if rng.random() < 0.6:
+            # edges on pixel boundaries: half-extent m + 0.5 for integer centres, m for half-integer centres
+            def ext(v, inner=False):
+                m_ = max(1, int(round(v))) if not inner else max(1, int(v))
+                return float(m_) if half else m_ + 0.5
+            pr = spec['prm']
+            if spec['fam'] == 'circle':
+                if spec['annulus']:
+                    pr['r_out'] = ext(pr['r_out']) + 1.0
+                    pr['r_in'] = min(ext(pr['r_in'], True), pr['r_out'] - 1.0)
+                else:
+                    pr['r'] = ext(pr['r'])
+            elif spec['fam'] == 'ellipse':
+                if spec['annulus']:
+                    pr['a_out'], pr['b_out'] = ext(pr['a_out']) + 1.0, ext(pr['b_out'])
+                    pr['b_out'] = min(pr['b_out'], pr['a_out'])
+                    pr['a_in'] = min(ext(pr['a_in'], True), pr['a_out'] - 1.0)
+                    pr['b_in'] = None
+                else:
+                    pr['a'] = ext(pr['a'])
+                    pr['b'] = min(ext(pr['b']), pr['a'])
+            else:
+                if spec['annulus']:
+                    pr['w_out'], pr['h_out'] = 2 * ext(pr['w_out'] / 2) + 2.0, 2 * ext(pr['h_out'] / 2)
+                    pr['w_in'] = min(2 * ext(pr['w_in'] / 2, True), pr['w_out'] - 2.0)
+                    pr['h_in'] = None
+                else:
+                    pr['w'], pr['h'] = 2 * ext(pr['w'] / 2), 2 * ext(pr['h'] / 2)
+            if spec['fam'] != 'circle':
+                spec['theta_arg'], spec['theta'], spec['tdesc'] = 0.0, 0.0, 'zero'
+            spec['explicit_inner'] = False
+            case.note('axis2_ix:edges_exactly_on_pixel_boundaries')
     # (i) coordinate magnitude: far from the origin / negative, float64 still resolves sub-pixel offsets
     if rng.random() < (0.05 if special else 0.12):
         plain = False
@@ -1153,6 +1197,14 @@ def _judge_image_ops(case, mask, box, rng, mech, shapes):
         img = mask.to_image(shape)
         cut_data = rng.normal(size=shape)
         fill = [0.0, 0.0, -1.5, float('nan')][int(rng.integers(0, 4))]
+        dt = None
+        if rng.random() < 0.25:
+            # (vii) narrow / unsigned / bool / huge-integer image dtypes: same numbers expected, nothing may wrap;
+            # only the default fill value 0 is judged (a negative or NaN fill in an unsigned image: docs silent)
+            dt = _IMAGE_DTYPES[int(rng.integers(0, len(_IMAGE_DTYPES)))]
+            cut_data = _typed_image(rng, shape, dt)
+            fill = 0.0
+            case.note('axis2_vii:image_dtype:' + dt)
         cut = mask.cutout(cut_data, fill_value=fill)
         if empty:
             case.check(img is None, 'to_image_none_iff_no_overlap', dict(mech, op='to_image'), shape=list(shape))
@@ -1178,9 +1230,18 @@ def _judge_image_ops(case, mask, box, rng, mech, shapes):
         exp_cut = np.full((ny, nx), fill, dtype=float)
         for y in ys:
             for x in xs:
-                exp_cut[y - box[2], x - box[0]] = cut_data[y, x]
-        case.check(cut is not None and core.exact(np.asarray(cut, float), exp_cut), 'cutout_is_box_window_of_data',
-                   dict(mech, op='cutout', fill=repr(fill)), shape=list(shape), box=list(box))
+                exp_cut[y - box[2], x - box[0]] = float(cut_data[y, x])
+        okc = cut is not None and core.exact(np.asarray(cut, float), exp_cut)
+        if okc and dt is not None:
+            # the very same numbers, compared in the image's own dtype (no float64 rounding in the comparison)
+            exp_nat = np.zeros((ny, nx), dtype=cut_data.dtype)
+            for y in ys:
+                for x in xs:
+                    exp_nat[y - box[2], x - box[0]] = cut_data[y, x]
+            okc = np.asarray(cut).dtype.kind == cut_data.dtype.kind and bool(np.array_equal(np.asarray(cut), exp_nat))
+        case.check(okc, 'cutout_is_box_window_of_data',
+                   dict(mech, op='cutout', fill=repr(fill), image_dtype=dt or 'float64'), shape=list(shape),
+                   box=list(box), got_dtype=str(getattr(cut, 'dtype', None)))
         # multiply (fill 0: everywhere; other fill: documented only where the weight is non-zero)
         mul = mask.multiply(cut_data, fill_value=fill)
         exp_cut0 = np.where(np.isnan(exp_cut), np.nan, exp_cut)
@@ -1191,20 +1252,86 @@ def _judge_image_ops(case, mask, box, rng, mech, shapes):
         else:
             sel = data != 0
             okm = mul is not None and mul.shape == data.shape and core.exact(np.asarray(mul, float)[sel], exp_mul[sel])
-        case.check(okm, 'multiply_is_weighted_cutout', dict(mech, op='multiply', fill=repr(fill)),
-                   shape=list(shape), box=list(box))
+        case.check(okm, 'multiply_is_weighted_cutout', dict(mech, op='multiply', fill=repr(fill),
+                                                            image_dtype=dt or 'float64'),
+                   shape=list(shape), box=list(box), got_dtype=str(getattr(mul, 'dtype', None)))
         # get_values with and without a pixel mask
         pm = None
         if rng.random() < 0.5:
             pm = rng.random(shape) < 0.3
         gv = mask.get_values(cut_data, mask=pm)
-        exp_v = [cut_data[y, x] * data[y - box[2], x - box[0]] for y in ys for x in xs
+        exp_v = [float(cut_data[y, x]) * data[y - box[2], x - box[0]] for y in ys for x in xs
                  if data[y - box[2], x - box[0]] > 0 and not (pm is not None and pm[y, x])]
         case.check(isinstance(gv, np.ndarray) and gv.ndim == 1 and core.exact(gv, np.array(exp_v, dtype=float)),
-                   'get_values_are_weighted_unmasked_common_pixels', dict(mech, op='get_values', pixmask=pm is not None),
+                   'get_values_are_weighted_unmasked_common_pixels',
+                   dict(mech, op='get_values', pixmask=pm is not None, image_dtype=dt or 'float64'),
                    shape=list(shape), box=list(box), n_obs=int(np.size(gv)), n_exp=len(exp_v))
     # the calls above must not have changed the mask
     case.check(core.exact(mask.data, data), 'mask_data_unchanged_by_image_ops', mech)
+
+
+_IMAGE_DTYPES = ['uint8', 'uint16', 'uint32', 'uint64', 'int8', 'int16', 'int64', 'bool', 'float32', 'float16']
+
+
+def _typed_image(rng, shape, dt):
+    if dt == 'bool':
+        return rng.random(shape) < 0.5
+    if dt in ('float32', 'float16'):
+        return rng.normal(size=shape).astype(dt)
+    info = np.iinfo(dt)
+    if dt == 'uint64':
+        a = rng.integers(2 ** 53, 2 ** 63, size=shape, dtype=np.uint64) * np.uint64(2) + np.uint64(1)
+    elif dt == 'int64':
+        a = rng.integers(-2 ** 62, 2 ** 62, size=shape, dtype=np.int64)
+    else:
+        a = rng.integers(info.min, int(info.max) + 1, size=shape, dtype=np.int64).astype(dt)
+    r = rng.random(shape)
+    a[r < 0.15] = info.max          # at the limits of the dtype
+    a[r > 0.9] = info.min
+    return a
+
+
+_PLACEMENTS = [('left', 'neg', 'in'), ('right', 'pos', 'in'), ('bottom', 'in', 'neg'), ('top', 'in', 'pos'),
+               ('bottom_left', 'neg', 'neg'), ('bottom_right', 'pos', 'neg'), ('top_left', 'neg', 'pos'),
+               ('top_right', 'pos', 'pos'), ('inside', 'in', 'in'), ('flush_left', 'flush_lo', 'in'),
+               ('flush_right', 'flush_hi', 'in'), ('flush_bottom', 'in', 'flush_lo'), ('flush_top', 'in', 'flush_hi'),
+               ('touching_outside_left', 'out_lo', 'in'), ('touching_outside_right', 'out_hi', 'in'),
+               ('touching_outside_bottom', 'in', 'out_lo'), ('touching_outside_top', 'in', 'out_hi')]
+
+
+def _place(rng, mode, n, dim):
+    """start index of a window of length n relative to an axis of length dim."""
+    if mode == 'neg':
+        return -int(rng.integers(1, n)) if n > 1 else -1
+    if mode == 'pos':
+        return dim - n + (int(rng.integers(1, n)) if n > 1 else 1)
+    if mode == 'flush_lo':
+        return 0
+    if mode == 'flush_hi':
+        return dim - n
+    if mode == 'out_lo':
+        return -n
+    if mode == 'out_hi':
+        return dim
+    return int(rng.integers(0, dim - n + 1)) if dim >= n else -int(rng.integers(0, n - dim + 1))
+
+
+def _judge_overhang(case, mask, rng, mech):
+    """(viii) the same mask weights, re-positioned (public ApertureMask(data, bbox) constructor) so that its box
+    overhangs EACH border / corner of a strongly non-square image separately, lies flush with it, or touches it from
+    outside; every op that takes a shape or an image is judged by the brute-force index sets."""
+    from photutils.aperture import ApertureMask, BoundingBox
+    ny, nx = mask.data.shape
+    name, mx, my = _PLACEMENTS[int(rng.integers(0, len(_PLACEMENTS)))]
+    short, long_ = int(rng.integers(2, 14)), int(rng.integers(40, 400))
+    orient = ['wide', 'tall'][int(rng.integers(0, 2))]
+    shape = (short, long_) if orient == 'wide' else (long_, short)
+    x0 = _place(rng, mx, nx, shape[1])
+    y0 = _place(rng, my, ny, shape[0])
+    m2 = ApertureMask(np.array(mask.data, copy=True), BoundingBox(x0, x0 + nx, y0, y0 + ny))
+    case.note('axis2_viii:placement:' + name)
+    case.note('axis2_viii:image:' + orient)
+    _judge_image_ops(case, m2, (x0, x0 + nx, y0, y0 + ny), rng, dict(mech, placement=name, image=orient), [shape])
 
 
 def _image_shapes(rng, box, n, hostile=False):
@@ -1280,6 +1407,8 @@ def _judge_aperture(case, aper, spec, methods, n_img=1, hostile_img=False):
             nontriv |= _judge_weights(case, mk.data, box, spec, xc, yc, outer, inner, method, s, mech, ex, ey)
             if mk.data.size <= 40_000 and abs(box[0]) < 10 ** 7:
                 _judge_image_ops(case, mk, box, rng, mech, _image_shapes(rng, box, n_img, hostile_img))
+            if mk.data.size <= 2500 and rng.random() < (0.7 if hostile_img else 0.3):
+                _judge_overhang(case, mk, rng, mech)
             elif abs(box[0]) >= 10 ** 7 or mk.data.size > 40_000:
                 # far / large: index arithmetic only (no brute-force pasting of big arrays)
                 shp = (int(rng.integers(1, 65)), int(rng.integers(1, 65)))
@@ -1338,6 +1467,8 @@ def _case_aperture(case):
     case.nontrivial = nontriv
     if rng.random() < (0.5 if _STATE['overlay'] and _STATE['overlay']['pyx_drift']['drift'] else 0.2):
         _judge_twin(case, aper, spec, methods)
+    if size < 30 and rng.random() < 0.06 and float(np.abs(np.array(spec['positions'])).max()) < 1e5:
+        _judge_provenance(case, aper, spec)
     # relations on method translation (small masks only)
     if size < 30 and rng.random() < 0.3:
         _method_relations(case, aper, spec)
@@ -1465,6 +1596,80 @@ def _case_reassign(case, aper, spec, methods):
                                             for x, y in zip(a, b)),
                    'reassigned_aperture_equals_fresh_one', dict(_mech(merged, method), changed=sorted(set(changed))))
     case.nontrivial = nontriv
+
+
+def _simple_wcs(rng):
+    from astropy.wcs import WCS
+    w = WCS(naxis=2)
+    rot = float(rng.uniform(-math.pi, math.pi))
+    sc = float(rng.choice([0.05, 0.2, 1.0])) / 3600.0
+    flip = float(rng.choice([-1.0, 1.0]))
+    w.wcs.ctype = ['RA---TAN', 'DEC--TAN']
+    w.wcs.crval = [float(rng.uniform(10, 300)), float(rng.uniform(-60, 60))]
+    w.wcs.crpix = [float(rng.uniform(0, 40)), float(rng.uniform(0, 40))]
+    w.wcs.cd = [[flip * sc * math.cos(rot), -sc * math.sin(rot)], [flip * sc * math.sin(rot), sc * math.cos(rot)]]
+    return w
+
+
+def _judge_provenance(case, aper, spec):
+    """(x) objects with a history, each used for two requests: pixel -> sky -> pixel (to_sky / to_pixel), the sky
+    aperture converted twice, copies and indexed children asked twice.  Every derived pixel aperture is judged at the
+    parameters it reports; a second request must give what the first gave; the sky aperture must not change."""
+    rng = case.rng
+    wcs = _simple_wcs(rng)
+    m0 = _mech(spec, 'n/a')
+    sky = aper.to_sky(wcs)
+    snap = {nm: (getattr(sky, nm).copy() if hasattr(getattr(sky, nm), 'copy') else getattr(sky, nm))
+            for nm in sky._params}
+    p1 = sky.to_pixel(wcs)
+    p2 = sky.to_pixel(wcs)
+    case.note('axis2_x:sky_aperture_converted_twice')
+
+    def same_params(a, b):
+        for nm in a._params:
+            x, y = getattr(a, nm), getattr(b, nm)
+            if nm == 'positions':
+                if not core.exact(np.asarray(x), np.asarray(y)):
+                    return False
+            elif hasattr(x, 'unit'):
+                if not (x.unit == y.unit and core.exact(np.asarray(x.value), np.asarray(y.value))):
+                    return False
+            elif x != y:
+                return False
+        return True
+    case.check(same_params(p1, p2), 'to_pixel_twice_gives_same_parameters', dict(m0, provenance='sky.to_pixel x2'),
+               first=repr(p1)[:200], second=repr(p2)[:200])
+    unchanged = True
+    for nm in sky._params:
+        x, y = getattr(sky, nm), snap[nm]
+        if nm == 'positions':
+            unchanged &= bool(np.all(x.ra == y.ra) and np.all(x.dec == y.dec))
+        elif hasattr(x, 'unit'):
+            unchanged &= bool(x.unit == y.unit and np.all(x.value == y.value))
+        else:
+            unchanged &= bool(x == y)
+    case.check(unchanged, 'sky_aperture_unchanged_by_to_pixel', dict(m0, provenance='sky.to_pixel x2'))
+    s_sub = int(rng.choice([2, 3, 5]))
+    methods = [('exact', 1), ('center', 1), ('subpixel', s_sub)]
+    derived = {'pixel_from_sky_1': p1, 'pixel_from_sky_2': p2, 'copy': aper.copy()}
+    if spec['npos']:
+        derived['indexed'] = aper[int(rng.integers(0, len(aper)))]
+        derived['pixel_from_sky_indexed'] = p2[int(rng.integers(0, len(p2)))]
+    for name, obj in derived.items():
+        extra = {'provenance': name}
+        # first use
+        first = obj.to_mask(method=methods[0][0], subpixels=s_sub)
+        _ = obj.bbox, obj.area
+        rspec = _reported_spec(obj, spec, extra)
+        _judge_aperture(case, obj, rspec, methods)
+        # second use of the same object: same answer as the first
+        again = obj.to_mask(method=methods[0][0], subpixels=s_sub)
+        fl = first if isinstance(first, list) else [first]
+        al = again if isinstance(again, list) else [again]
+        case.check(len(fl) == len(al) and all(_box_tuple(a_.bbox) == _box_tuple(b_.bbox) and core.exact(a_.data, b_.data)
+                                              for a_, b_ in zip(fl, al)),
+                   'second_request_equals_first', dict(_mech(rspec, 'exact'), provenance=name))
+        case.note('axis2_x:derived_object_used_twice:' + name)
 
 
 _PARAM_NAMES = {('circle', False): ['r'], ('circle', True): ['r_in', 'r_out'],
